@@ -232,14 +232,25 @@ func walk(impl []op, ref []mop, md cmpMode) *mismatch {
 			}
 			k := i
 			found := false
-			for k < len(impl) && impl[k].k == 'C' {
-				if md.judge && near(impl[k].f[4], ex, 1e-6) && near(impl[k].f[5], ey, 1e-6) ||
-					!md.judge && md.exact && ratEq(impl[k].f[4], r.r[5]) && ratEq(impl[k].f[5], r.r[6]) ||
-					!md.judge && !md.exact && math.Abs(impl[k].f[4]-ex) <= md.lineTol*math.Max(1, math.Max(maxAbs, math.Abs(ex))) && math.Abs(impl[k].f[5]-ey) <= md.lineTol*math.Max(1, math.Max(maxAbs, math.Abs(ey))) {
-					found = true
-					break
+			// the last cubic of an arc is set to the end point itself: look for the exact (correctly
+			// rounded) end point first, then (tolerance modes) for one within tolerance of it
+			for pass := 0; pass < 2 && !found; pass++ {
+				for k = i; k < len(impl) && impl[k].k == 'C'; k++ {
+					var hit bool
+					switch {
+					case pass == 0:
+						hit = ratEq(impl[k].f[4], r.r[5]) && ratEq(impl[k].f[5], r.r[6])
+					case md.judge:
+						hit = near(impl[k].f[4], ex, 1e-6) && near(impl[k].f[5], ey, 1e-6)
+					case !md.exact:
+						sc := math.Max(1, math.Max(math.Max(math.Abs(cur[0]), math.Abs(cur[1])), math.Max(math.Abs(ex), math.Abs(ey))))
+						hit = math.Abs(impl[k].f[4]-ex) <= md.lineTol*sc && math.Abs(impl[k].f[5]-ey) <= md.lineTol*sc
+					}
+					if hit {
+						found = true
+						break
+					}
 				}
-				k++
 			}
 			if !found {
 				got := "nothing"
